@@ -115,6 +115,8 @@ func init() {
 				{"cmd": "userdict", "attrs": []UAttr{}, "chords": []UChord{{"A", "a", []string{"Major9"}, "b"}, {"B", "b", []string{"Minor7"}, "m7b5"}}},                                            // extends by display
 				{"cmd": "userdict", "attrs": []UAttr{}, "split": true, "chords": []UChord{{"Child", "ch", []string{"Major9"}, "Parent"}, {"Parent", "pa", []string{"Perfect1", "Minor3"}, ""}}}, // the extending file comes first
 				{"cmd": "userdict", "attrs": []UAttr{}, "split": true, "chords": []UChord{{"Parent", "pa", []string{"Perfect1", "Minor3"}, ""}, {"Child", "ch", []string{"Major9"}, "pa"}}},
+				{"cmd": "userdict", "attrs": []UAttr{}, "split": true, "chords": []UChord{{"Twice", "tw", []string{"Perfect1", "Minor3"}, ""}, {"Twice", "tw", []string{"Perfect1", "Major3", "Major6"}, ""}}}, // the later file wins
+				{"cmd": "userdict", "attrs": []UAttr{}, "split": true, "chords": []UChord{{"Twice", "tw", []string{"Perfect1", "Minor3"}, ""}, {"Other", "ot", nil, "tw"}, {"Twice", "tw", []string{"Perfect4"}, ""}}},
 				{"cmd": "userdict", "attrs": []UAttr{{"XA", "b2"}}, "chords": []UChord{{"", "zz", []string{"XA"}, ""}}},                                                                             // unnamed chord
 			}
 			cases = append(cases, hand...)
@@ -226,7 +228,8 @@ func init() {
 				if cb(k, "split") && len(uc) > 1 {
 					// one file per entry, in the order written: a dictionary is the whole of its files, whatever their order
 					for fi, one := range uc {
-						f := c.writeTemp(fmt.Sprintf("c%s-%d.yml", id, fi), chordsYAML([]UChord{one}))
+						f := c.writeTemp(fmt.Sprintf("c%s-%c.yml", id, 'z'-rune(fi)), chordsYAML([]UChord{one})) // names in reverse path order
+
 						extra = append(extra, "--chord", f)
 						files = append(files, f)
 					}
